@@ -116,6 +116,9 @@ def run_case_files(terms, imports, rundir, extra_q=(), chunk=None, jobs=16, tag=
     def one(item):
         name, idxs = item
         ok, out = coqc(name, rundir, extra_q)
+        if not ok and not out.strip():
+            # coqc died without any diagnostic (killed by a signal under memory/CPU pressure): not a verdict, run it again once
+            ok, out = coqc(name, rundir, extra_q)
         return name, idxs, ok, out
 
     n = 0
